@@ -1,7 +1,7 @@
 (** S-expression codec between the harness and the model, and the model's
     entry point [run_case]. *)
 From Coq Require Import List ZArith NArith Bool Floats.SpecFloat.
-From AG Require Import Str F64 Value Json Expr Ops Pipeline Filter Output Display Term.
+From AG Require Import Str F64 Value Json Expr Ops Pipeline Filter Output Display Term Grammar.
 Import ListNotations.
 Open Scope string_scope.
 Open Scope list_scope.
@@ -415,6 +415,24 @@ Definition run_case (c : sexp) : sexp :=
             then enc_run (run_pipeline (fmatches f) stages lines)
             else sym "reject"
         | _, _, _ => sym "bad-case"
+        end
+      else sym "bad-case"
+  | SList [h; q] =>
+      if is_sym h "accepts" then
+        match atom_str q with
+        | Some q => match accepts q with Some _ => sym "accept" | None => sym "reject" end
+        | None => sym "bad-case"
+        end
+      else sym "bad-case"
+  | SList [h; q; SList lines] =>
+      if is_sym h "runq" then
+        match atom_str q, map_opt atom_str lines with
+        | Some q, Some lines =>
+            match accepts q with
+            | Some (f, stages) => enc_run (run_pipeline (fmatches f) stages lines)
+            | None => sym "reject"
+            end
+        | _, _ => sym "bad-case"
         end
       else sym "bad-case"
   | SList [h; hh; ww; bytes] =>
